@@ -170,6 +170,12 @@ class WccnReplay:
         if kind == "numpy":
             t = self.em.WCCN().fit(X, np.array(y))
             return np.asarray(t.weights, dtype=float), np.array([np.asarray(z, dtype=float) for z in t.transform(X)])
+        if kind == "numpy-offset":
+            # the same samples far from the origin: the within-class scatter is a function of the deviations from
+            # the class means, so neither W nor the transformed scatter may move
+            X = X + variant
+            t = self.em.WCCN().fit(X, np.array(y))
+            return np.asarray(t.weights, dtype=float), np.array([np.asarray(z, dtype=float) for z in t.transform(X)])
         chunks, ykind, sk = variant
         with dask.config.set(scheduler=scheduler(sk, self.rng)):
             Xd = da.from_array(X, chunks=chunks)
@@ -189,6 +195,8 @@ class WccnReplay:
         pyorder = [int(v) for v in set(np.array(y))]
         scn = {k: rec[k] for k in ("data", "part", "lab", "sp", "X", "y")}
         kinds = [("numpy", None)]
+        if self.rng.random() < 0.3:
+            kinds.append(("numpy-offset", float(self.rng.choice([1e5, -1e6, 3e6]))))
         if with_dask:
             kinds.append(("dask", forced or dask_variant(self.rng, n, dm)))
         Wnp = None
@@ -196,7 +204,8 @@ class WccnReplay:
         for kind, variant in kinds:
             ck.replayed += 1
             ck.seen([scn, kind, variant])
-            tag = kind if variant is None else "dask chunks=%s y=%s scheduler=%s" % variant
+            tag = kind if variant is None else ("offset %g" % variant if kind == "numpy-offset"
+                                                  else "dask chunks=%s y=%s scheduler=%s" % variant)
             try:
                 W, Z = self.fit(rec, kind, variant)
             except Exception as e:       # the property promises a projection for every full-rank labelled set
